@@ -51,7 +51,7 @@ def history(draw, max_steps, big=False):
     k = draw(st.integers(1, max_steps))
     P = st.integers(0, nproj - 1)
     sel = st.integers(0, 40)  # resolved modulo what exists at run time
-    kinds = ["new", "new", "attach_fresh", "attach_own", "attach_foreign", "attach_none", "iadd_module", "iadd_list", "iadd_nested", "iadd_pattern", "iadd_clone", "attach_pattern", "attach_pattern_owned", "attach_pattern_none", "note_set_module", "note_set_mod", "note_set_mod_unattached", "save_load", "blank_reload", "set_flags"]
+    kinds = ["new", "new", "attach_fresh", "attach_own", "attach_foreign", "attach_none", "iadd_module", "iadd_list", "iadd_nested", "iadd_pattern", "iadd_clone", "attach_pattern", "attach_pattern_owned", "attach_pattern_none", "note_set_module", "note_set_mod", "note_set_mod_unattached", "save_load", "blank_reload", "set_flags", "macro", "macro"]
     for _ in range(k):
         kind = draw(st.sampled_from(kinds))
         op = [kind, draw(P)]
@@ -61,6 +61,9 @@ def history(draw, max_steps, big=False):
                 op.append(draw(st.sampled_from(ORIGINS)))
         elif kind in ("attach_own", "attach_foreign", "attach_pattern_owned"):
             op += [draw(P), draw(sel)]
+        elif kind == "macro":
+            # MultiCtl.macro builds a controller bundle in the project; with an initial value that is refused the call fails
+            op += [draw(sel), draw(st.sampled_from([None, 100, 32768, 99999, -1]))]
         elif kind == "iadd_list":
             op.append([draw(st.sampled_from(TYPES)) for _ in range(draw(st.integers(1, 3)))])
             op.append(draw(st.sampled_from(ORIGINS)))
@@ -287,6 +290,38 @@ def run_history(ctx, h):
             labels.add("iadd_nested")
             if any(isinstance(x, list) and x for x in op[2]) and None in before_slots:
                 labels.add("iadd_nested_into_gaps")
+        elif kind == "macro":
+            from rv.api import m as _m
+
+            own = [u for u in w.slots[pi] if u is not None and getattr(w.objs[u], "controllers", None) and type(w.objs[u]).__name__ != "MultiCtl"]
+            if not own:
+                continue
+            target = w.objs[own[op[2] % len(own)]]
+            n_before = len(p.modules)
+            uid = w.new_uid()
+            pos, filled = w.model_attach(pi, uid)
+            err = None
+            try:
+                _m.MultiCtl.macro(p, (target, list(type(target).controllers)[0]), initial=op[3])
+            except Exception as e:  # noqa: BLE001
+                err = e
+            refused = op[3] is not None and not (0 <= op[3] <= 32768)
+            if refused != (err is not None):
+                raise PropertyViolation("C14.macro.outcome", "step %d: MultiCtl.macro(initial=%r) %s" % (step, op[3], "raised %r" % err if err else "did not raise"))
+            labels.add("macro_refused" if refused else "macro")
+            if filled:
+                labels.add("gap_filled")
+            # a call that failed half-way may leave its bundle behind or take it out again (leaving its place empty):
+            # either way no other module moves and every module still sits where its index says
+            got = p.modules[pos] if pos < len(p.modules) else None
+            if got is not None and type(got).__name__ == "MultiCtl" and not any(got is w.objs.get(u) for u in w.slots[pi] if u != uid):
+                w.objs[uid] = got
+            elif refused and len(p.modules) == max(n_before, pos + 1) and got is None:
+                w.slots[pi][pos] = None
+            elif refused and len(p.modules) == n_before and pos == n_before:
+                w.slots[pi].pop()
+            else:
+                raise PropertyViolation("C14.macro.slots", "step %d: after MultiCtl.macro(initial=%r) the module list has %d entries (was %d), position %d holds %r" % (step, op[3], len(p.modules), n_before, pos, got))
         elif kind == "attach_none":
             p.attach_module(None)
             w.slots[pi].append(None)
@@ -387,6 +422,9 @@ def run_history(ctx, h):
             data = p.read()
             if kind == "blank_reload":
                 idxs = {1 + (x % max(1, len(w.slots[pi]) - 1)) for x in op[2]} if len(w.slots[pi]) > 1 else set()
+                # (a module that takes part in a link - histories with a macro have some - is not blanked: a file whose
+                # links lead to an empty position is not a file any writer produces)
+                idxs = {i for i in idxs if i >= len(p.modules) or p.modules[i] is None or not ([x for x in p.modules[i].in_links if x != -1] or [x for x in p.modules[i].out_links if x != -1])}
                 data = build.blank_module_sections(data, idxs)
                 for i in idxs:
                     if i < len(w.slots[pi]):
